@@ -89,8 +89,13 @@ LONG_NS = (9, 17) if T == 'quick' else tuple(range(3, 26))
 ck.declare('varint_roundtrip_long', f'lists of n in {list(LONG_NS)} values: one arbitrary u64 at any position, the others arbitrary values < 128',
            'varint_decode(varint_encode(v)) == v')
 ck.bounds['long varint lists'] = f'n in {list(LONG_NS)}; exactly one value unconstrained, the rest < 128 (so encodings reach {max(LONG_NS) + 9} bytes)'
-for n in LONG_NS:
-    for pos in range(n):
+def _chunks(items, k):
+    return [items[i::k] for i in range(k) if items[i::k]]
+
+
+def _long_case(case):
+    n, pos = case
+    for _a in (0,):
         vals = u64list('w', n)
         st = ex.new_state()
         for i, v in enumerate(vals):
@@ -116,6 +121,9 @@ for n in LONG_NS:
                 out = r2.retval.elems
                 concl = z3.And([a.v == b.v for a, b in zip(out, vals)]) if len(out) == n else z3.BoolVal(False)
                 ck.require(ex, 'varint_roundtrip_long', r2.pc, None, concl, wit, lambda m, w: 'varint')
+
+
+ck.parallel(_chunks([(n, pos) for n in LONG_NS for pos in range(n)], 16 if T != 'quick' else 4), lambda ch: [_long_case(c) for c in ch] and None, jobs=16 if T != 'quick' else 4)
 
 # --------------------------------------------------------------- B/C. delta and id-list round trip
 ck.declare('ids_roundtrip_sorted', f'lists of 0..{N_IDS} non-decreasing u64', 'decompress_ids(compress_ids(x)) == x for sorted x')
@@ -303,10 +311,16 @@ RLE_LONG = (17, 33) if T == 'quick' else (5, 9, 17, 33, 40)
 ck.declare('rle_roundtrip_long', f'i64 lists of length {list(RLE_LONG)}: one arbitrary background value with arbitrary values at one or two positions (every position pair in thorough, '
            'every position plus every pair 16 apart in quick)', 'rle_decode(rle_encode(x)) == x and sum(runs) == len')
 ck.bounds['long rle lists'] = f'lengths {list(RLE_LONG)}, background value and outliers full-width i64'
+_rle_items = []
 for n in RLE_LONG:
     singles = [(p,) for p in range(n)]
     pairs = [(p, q) for p in range(n) for q in range(p + 1, n)] if T != 'quick' else [(p, p + d) for p in range(n) for d in (1, 15, 16, 17) if p + d < n]
-    for pos in singles + pairs:
+    _rle_items += [(n, pos) for pos in singles + pairs]
+
+
+def _rle_case(case):
+    n, pos = case
+    for _a in (0,):
         bg = z3.BitVec('bg', 64)
         outs = {p: z3.BitVec(f'o{p}', 64) for p in pos}
         vals = [Int(outs.get(i, bg), True) for i in range(n)]
@@ -333,6 +347,9 @@ for n in RLE_LONG:
                 out = r2.retval.elems
                 concl = z3.BoolVal(False) if len(out) != n else z3.And([a.v == b.v for a, b in zip(out, vals)] + [total])
                 ck.require(ex, 'rle_roundtrip_long', r2.pc, None, concl, wit, lambda m, w: 'rle')
+
+
+ck.parallel(_chunks(_rle_items, 16 if T != 'quick' else 4), lambda ch: [_rle_case(c) for c in ch] and None, jobs=16 if T != 'quick' else 4)
 
 for v in ck.violations:
     if v['obligation'] in ('rle_roundtrip', 'rle_roundtrip_long'):
